@@ -41,11 +41,14 @@ def _obs(pk, q):
     return [[len(pk), len(q)]] + [list(x) for x in pk] + [list(x) for x in q]
 
 
+_COMPLEMENT = bytes(b ^ 0xFF for b in range(256))
+
+
 def _flip(x):
     """overwrite a buffer in place (every octet complemented); immutable octet strings are left alone"""
     if isinstance(x, bytes) or (isinstance(x, memoryview) and x.readonly):
         return bytes(x)
-    x[:] = bytes(b ^ 0xFF for b in x)
+    x[:] = bytes(x).translate(_COMPLEMENT)
     return bytes(x)
 
 
@@ -56,6 +59,7 @@ def _history(a, observe_appends):
     mine = []        # chunk objects the caller appended and has not overwritten yet
     handed = []      # (packet object handed out, its content after the caller's edit)
     aliased = 0
+    shared = []      # one list object the caller keeps and edits in place between calls
     for k, o in enumerate(a[2:]):
         if o and o[0] in (0, 3):
             c = bytearray(o[1:]) if o[0] == 0 else bytes(o[1:])
@@ -65,6 +69,9 @@ def _history(a, observe_appends):
                 out += _obs([], q)
             continue
         ids = _ids(o[1:]) if o and o[0] == 2 else dflt
+        if o and o[0] == 2 and k % 4 < 2:
+            shared[:] = ids
+            ids = shared
         pk = sp.parse_space_packets(q, tuple(ids) if k % 2 else ids)
         out += _obs(pk, q)
         # the caller reuses its receive buffers and edits the packets it was given
@@ -78,7 +85,7 @@ def _history(a, observe_appends):
         for x in pk:
             before = bytes(x)
             _flip(x)
-            new.append((x, bytes(b ^ 0xFF for b in before) if not isinstance(x, bytes) else before))
+            new.append((x, before.translate(_COMPLEMENT) if not isinstance(x, bytes) else before))
         handed = (handed if len(handed) < 64 else handed[-64:]) + new
         if [bytes(x) for x in q] != qsnap or any(bytes(x) != exp for x, exp in handed):
             aliased += 1
@@ -385,6 +392,8 @@ def streams(tier, rng):
                 cases.append(length_case(rng, m + d, (0, 2, 5, 7, 1, 3)[(k + m // 1024) % 6], IDS1))
     for n, v in ((65541, 0), (65542, 2), (65535, 5), (65542, 5), (65530, 7)):
         cases.append(length_case(rng, n, v, IDS3))
+    for k in range(200 if big else 12):                      # random lengths above 4 KiB
+        cases.append(length_case(rng, rng.randrange(4097, 65543), k, IDS1))
     yield "packet_length_boundaries_to_64k", "exact", cases
     # 7. backlogs: many chunks queued before the first parse call (1 KiB .. 256 KiB, thorough .. 2 MiB):
     #    reads of a fixed size, one-octet reads, a few random cuts, a parse in the middle; totals at and
